@@ -196,6 +196,44 @@ def work(chunk):
     return acc
 
 
+# ---------------------------------------------------------------------------------------------
+# two-step histories: one Richardson object reused on sequences of different length, and different
+# objects one after the other (E2, depth 2, exact comparison with the call executed alone)
+
+def history_cases():
+    out = []
+    for ratio in (2.0, CPLX_RATIOS[0]):
+        for step, order in ((1, 1), (2, 2)):
+            for nt in (2, 3):
+                for length in (1, 2, nt + 1, 8):
+                    out.append((ratio, step, order, nt, length))
+    return out
+
+
+def history_run(case, shared):
+    from numdifftools.extrapolation import Richardson
+    ratio, step, order, nt, length = case
+    key = ('R', ratio, step, order, nt)
+    if key not in shared:
+        shared[key] = Richardson(step_ratio=ratio, step=step, order=order, num_terms=nt)
+    L, afun = COEFS[0]
+    seq, hs, mags = model_sequence(ratio, step, order, min(nt, length - 1), length, L, afun, 1.0)
+    cplx = isinstance(ratio, complex)
+    a = np.array(seq, dtype=complex if cplx else float).reshape(-1, 1) if cplx else \
+        np.array([z.real for z in seq]).reshape(-1, 1)
+    h = np.array(hs, dtype=complex).reshape(-1, 1) if cplx else np.array([z.real for z in hs]).reshape(-1, 1)
+    try:
+        return fw.obs(shared[key](a, h))
+    except Exception as e:
+        return fw.obs(e)
+
+
+def work_history(chunk):
+    acc = fw.Acc()
+    fw.pair_histories(acc, 'C07', 'richardson-object-reuse', history_cases(), history_run)
+    return acc
+
+
 def run(ctx):
     ratios = REAL_RATIOS + CPLX_RATIOS
     cases = []
@@ -208,9 +246,10 @@ def run(ctx):
                         for ncols in ((1, 3) if ctx.quick else (1, 2, 3)):
                             cases.append((ratio, step, order, nt, length, ncols))
     acc = ctx.pmap(work, cases, chunk=100)
+    acc.merge(ctx.pmap(work_history, [0], chunk=1))
     for c in cases[:2] + cases[len(cases) // 2:len(cases) // 2 + 2] + cases[-2:]:
         acc.sample(dict(ratio=c[0], spacing=c[1], order=c[2], num_terms=c[3], length=c[4], columns=c[5]))
-    req = ['%s/terms=%d' % (k, t) for k in ('real', 'complex') for t in range(1, 6)]
+    req = ['%s/terms=%d' % (k, t) for k in ('real', 'complex') for t in range(1, 6)] + ['history/richardson-object-reuse']
     rule = ('full product of %d ratios (8 real, 12 complex) x spacing 1..4 x order 1..8 x num_terms 0..5 x '
             'lengths x columns; exact Gaussian-rational annihilation identities on the float weights; model '
             'sequences L + sum a_j h^(order+spacing j) (4 coefficient patterns, 2 start steps) through the real '
@@ -223,6 +262,16 @@ def run(ctx):
 
 
 def replay(case):
+    if case.get('kind') == 'history':
+        cs = history_cases()
+        a, b = cs[case['i']], cs[case['j']]
+        fw.fresh_library_state()
+        alone = history_run(b, {})
+        fw.fresh_library_state()
+        sh = {}
+        history_run(a, sh)
+        got = history_run(b, sh)
+        return got == alone, 'history %r then %r: %s' % (a, b, 'same as alone' if got == alone else 'differs from the call alone')
     r = case['ratio']
     ratio = complex(r['re'], r['im']) if isinstance(r, dict) else float(r)
     c = (ratio, case['step'], case['order'], case['num_terms'], case['length'], case['ncols'])
